@@ -10,7 +10,9 @@ Record C20_obs := mkObs {
   o_refs : list (string * Z);                    (* dynInformers.refCount afterwards *)
   o_active : list (string * (Z * (Z * Z)));      (* (name, (spec id, (hook calls, API writes))) made on behalf of the
                                                     instance (name, spec id) in the observation window after the event *)
-  o_wpanics : Z                                  (* panics of hosted workers in the window *)
+  o_wpanics : Z;                                 (* panics of hosted workers in the window *)
+  o_inflight_return : bool                       (* the event was issued while a sync of the name's instance was held inside
+                                                    its sync hook call, and Reconcile returned before that call was released *)
 }.
 
 Record C20_case := mkC20 {
@@ -148,6 +150,21 @@ Definition prop_step (fl : flavor) (v : iview) (e : event) (o : C20_obs) : optio
   let verdict :=
     first_fail [
       ("constructor-panic", negb (match o_outcome o with RPanic => true | _ => false end));
+      (* Stop joins the workers: a Reconcile that removes or replaces the instance cannot
+         return while one of its syncs is still in flight *)
+      ("stop-returned-with-sync-in-flight",
+         negb (o_inflight_return o &&
+               match e with
+               | Reconcile n _ =>
+                   match zfind n prev with
+                   | Some (_, inc0) => match zfind n cur with
+                                       | Some (_, inc) => negb (Z.eqb inc0 inc)
+                                       | None => true
+                                       end
+                   | None => false
+                   end
+               | Related _ _ => false
+               end));
       ("two-instances", nodupb (map fst cur) && negb (two_active (o_active o)));
       ("instance-running-after-delete",
          match e with
